@@ -21,9 +21,11 @@
 #define FX_HEAD  (FX_T0 + 86400ULL * 60 + 9)    /* calendar head */
 
 enum { FXE_CORRECT = 0, FXE_OTHER_ROOT, FXE_OTHER_INPUT, FXE_OTHER_AGGR_TIME, FXE_RIGHT_ALTERED, FXE_ERROR_STATUS, FXE_ERROR_PDU, FXE_BAD_MAC,
-       FXE_WRONG_ID, FXE_NO_REPLY, FXE_RIGHT_EXTRA, FXE_RIGHT_EXTRA_TOP, FXE_NO_AGGR_TIME_FIELD, FXE_ERROR_STATUS_WIDE, FXE_NBEH };
+       FXE_WRONG_ID, FXE_NO_REPLY, FXE_RIGHT_EXTRA, FXE_RIGHT_EXTRA_TOP, FXE_NO_AGGR_TIME_FIELD, FXE_ERROR_STATUS_WIDE,
+       FXE_LEFT_AS_RIGHT_LOW, FXE_LEFT_AS_RIGHT_MID, FXE_LEFT_AS_RIGHT_HIGH, FXE_NBEH };   /* FXE_LEFT_AS_RIGHT_*: the honest chain with the lowest / a middle / the highest left link turned into a right link */
 static const char *FXE_NAME[FXE_NBEH] = {"correct", "other-root", "other-input", "other-aggr-time", "right-altered", "error-status", "error-pdu", "bad-mac", "wrong-id", "no-reply",
-                                         "right-extra", "right-extra-top", "no-aggr-time-field", "error-status-wide"};
+                                         "right-extra", "right-extra-top", "no-aggr-time-field", "error-status-wide",
+                                         "left-link-as-right-lowest", "left-link-as-right-middle", "left-link-as-right-highest"};
 
 typedef struct {
 	int ext_behaviour;
@@ -90,6 +92,13 @@ static void fx_handler(const unsigned char *req, size_t n, vbuf *resp, void *use
 				cal.cal[at].sib[11] ^= 0x5a;
 				cal.ncal++;
 			}
+			break;
+		}
+		case FXE_LEFT_AS_RIGHT_LOW: case FXE_LEFT_AS_RIGHT_MID: case FXE_LEFT_AS_RIGHT_HIGH: {
+			int nl = 0, want, k = 0;
+			for (i = 0; i < cal.ncal; i++) nl += cal.cal[i].is_left;
+			want = FXS.ext_behaviour == FXE_LEFT_AS_RIGHT_LOW ? 0 : FXS.ext_behaviour == FXE_LEFT_AS_RIGHT_MID ? nl / 2 : nl - 1;
+			for (i = 0; i < cal.ncal; i++) if (cal.cal[i].is_left && k++ == want) { cal.cal[i].is_left = 0; break; }
 			break;
 		}
 		case FXE_NO_AGGR_TIME_FIELD: cal.cal_has_aggr = 0; break;   /* the honest chain, but it does not say which aggregation time it is for (then: its publication time) */
